@@ -896,6 +896,11 @@ where
                         "remote endpoint sent OpenPort request for same remote port {client_port} twice"
                     )));
                 }
+                // The remote endpoint must not have more unanswered requests than the announced queue length,
+                // whether or not a listener is present to take them.
+                if self.outstanding_remote_port_requests.len() > usize::from(self.local_cfg.connect_queue) {
+                    return Err(protocol_err("remote endpoint sent too many OpenPort requests"));
+                }
                 let req = RemoteConnectMsg::Request(Request::new(
                     client_port,
                     id.unwrap_or(client_port),
